@@ -12,7 +12,18 @@ RULES = {
     'C09.R4': 'each node is reported once in depth-first order with correct depth and sibling counters, also after skips (DfsPre rules shared with C13)',
     'C09.R2': 'find_terminal pushes the label it follows and returns the node it reached; PolyhedraGen::next builds the predicate from the parent edge of the node it reports',
 }
-FLOORS = {'C09.R1': 4, 'C09.R2': 3, 'C09.R3': 1, 'C09.R4': 8, 'C09.R5': 10}
+WRAPPERS = {
+    '<PolyhedraIter as Iterator>::next': ('Option::map(PolyhedraGen::next(self.iter, self.tree), closure {closure#0}[])', ['tuple(_2.0.depth, _2.0.index, _2.0.n_remaining, _2.1)'],
+                                          'item = (depth, index, n_remaining, path polytopes) of the generator\'s item over the same tree'),
+    'PolyhedraIter::new': ('PolyhedraIter::PolyhedraIter{PolyhedraGen::new(tree), tree}', [], 'generator from the root of the tree it is later stepped with'),
+    'PolyhedraIter::skip_subtree': ('PolyhedraGen::skip_subtree(self.iter)', [], 'skips in the wrapped generator'),
+    'PolyhedraGen::new': ('PolyhedraGen::with_root(tree, Tree::get_root_idx(tree))', [], 'starts at the root'),
+    'PolyhedraGen::skip_subtree': ('DfsPre::skip_subtree(self.iter)', [], 'skips in the underlying depth-first traversal (the predicate stack is cut back by the next step, C09.R3)'),
+    'AffTree::polyhedra': ('PolyhedraGen::new(self.tree)', [], 'generator over this tree'),
+    'AffTree::polyhedra_iter': ('PolyhedraIter::new(self.tree)', [], 'iterator over this tree'),
+    'DfsNodeData::extract': ('tuple(self.depth, self.index, self.n_remaining)', [], '(depth, index, n_remaining) in this order'),
+}
+FLOORS = {'C09.R1': 4, 'C09.R2': 11, 'C09.R3': 1, 'C09.R4': 8, 'C09.R5': 10}
 EXPLANATION = 'The evaluator and the two region builders implement the same closed half-space per label, for every tree and input (exact arithmetic).'
 DOES_NOT_DECIDE = ('traversals started below the root with PolyhedraGen::with_root (the path above the start node is not reconstructed); disjoint interiors and coverage (set reasoning); '
                    'ordering/depth counters (C13)')
@@ -139,6 +150,7 @@ def sign_table(b, R, mul_bb):
 
 
 def run(ctx):
+    prune.check_wrappers(ctx, 'C09.R2', WRAPPERS)
     F = ctx.facts
     # ---------------- evaluator
     b = ctx.body('C09.R1', 'AffTree::evaluate_decision')
